@@ -30,3 +30,125 @@ package kfake
 //@   ensures s != nil && !reset && !isDup && firstSeq != old(s.nextSeq) ==> !ok && !dup
 //@   ensures s != nil && (!ok || dup) ==> s.nextSeq == old(s.nextSeq) && s.seen == old(s.seen) && s.epoch == old(s.epoch) && s.count == old(s.count) && s.at == old(s.at)
 //@   ensures s != nil ==> s.count <= 5 && s.at < 5
+
+// ---- C34: authorisation, written from Apache Kafka's StandardAuthorizer / Authorizer.authorizeByResourceType ----
+// (hasprefix is strings.HasPrefix, an uninterpreted relation: the proofs hold for every such relation.)
+
+//@ spec mRes(a acl, rt kmsg.ACLResourceType, name string) bool = a.resourceType == rt &&
+//@      ((a.pattern == kmsg.ACLResourcePatternTypeLiteral && (a.resourceName == name || a.resourceName == "*"))
+//@       || (a.pattern == kmsg.ACLResourcePatternTypePrefixed && hasprefix(name, a.resourceName)))
+//@ spec mPrin(a acl, p string) bool = a.principal == p || a.principal == "User:*"
+//@ spec mHost(a acl, h string) bool = a.host == h || a.host == "*"
+//@ spec mOpExact(a acl, op kmsg.ACLOperation) bool = a.operation == kmsg.ACLOperationAll || a.operation == op
+//@ spec implies(aop kmsg.ACLOperation, op kmsg.ACLOperation) bool =
+//@      (op == kmsg.ACLOperationDescribe && (aop == kmsg.ACLOperationRead || aop == kmsg.ACLOperationWrite || aop == kmsg.ACLOperationDelete || aop == kmsg.ACLOperationAlter))
+//@      || (op == kmsg.ACLOperationDescribeConfigs && aop == kmsg.ACLOperationAlterConfigs)
+//@ spec mOp(a acl, op kmsg.ACLOperation) bool = mOpExact(a, op) || (a.permission == kmsg.ACLPermissionTypeAllow && implies(a.operation, op))
+//@ spec mAll(a acl, p string, h string, name string, rt kmsg.ACLResourceType, op kmsg.ACLOperation) bool =
+//@      mRes(a, rt, name) && mPrin(a, p) && mHost(a, h) && mOp(a, op)
+
+//@ func (a *acl) matchesResource(resourceType kmsg.ACLResourceType, resourceName string) (r bool)
+//@   prop C34
+//@   nopanic
+//@   pure
+//@   ensures r == mRes(*a, resourceType, resourceName)
+
+//@ func (a *acl) matchesPrincipal(principal string) (r bool)
+//@   prop C34
+//@   nopanic
+//@   pure
+//@   ensures r == mPrin(*a, principal)
+
+//@ func (a *acl) matchesHost(host string) (r bool)
+//@   prop C34
+//@   nopanic
+//@   pure
+//@   ensures r == mHost(*a, host)
+
+//@ func (a *acl) matchesOp(op kmsg.ACLOperation) (r bool)
+//@   prop C34
+//@   nopanic
+//@   pure
+//@   ensures r == mOp(*a, op)
+
+// allowed: some matching ALLOW and no matching DENY. Stored ACLs are ALLOW or DENY (CreateACLs rejects the rest).
+//@ func (a *clusterACLs) allowed(principal string, host string, resourceName string, resourceType kmsg.ACLResourceType, op kmsg.ACLOperation) (r bool)
+//@   prop C34
+//@   nopanic
+//@   pure
+//@   requires forall j in 0..len(a.acls) :: a.acls[j].permission == kmsg.ACLPermissionTypeAllow || a.acls[j].permission == kmsg.ACLPermissionTypeDeny
+//@   loop 0 invariant forall j in 0..rangeindex+1 :: !(mAll(a.acls[j], principal, host, resourceName, resourceType, op) && a.acls[j].permission == kmsg.ACLPermissionTypeDeny)
+//@   loop 0 invariant hasAllow <==> exists j in 0..rangeindex+1 :: mAll(a.acls[j], principal, host, resourceName, resourceType, op)
+//@   ensures r <==> ((forall j in 0..len(a.acls) :: !(mAll(a.acls[j], principal, host, resourceName, resourceType, op) && a.acls[j].permission == kmsg.ACLPermissionTypeDeny))
+//@              && (exists j in 0..len(a.acls) :: mAll(a.acls[j], principal, host, resourceName, resourceType, op) && a.acls[j].permission == kmsg.ACLPermissionTypeAllow))
+
+// anyAllowed ("may do op on SOME resource of this type"), Kafka's authorizeByResourceType: an ALLOW pattern
+// counts only if no matching DENY pattern dominates it. A DENY on literal "*" dominates everything; a DENY
+// literal dominates the same ALLOW literal; a DENY prefix dominates ALLOW literals and prefixes that it is a
+// (non-empty) prefix of, except the ALLOW wildcard, which only a DENY wildcard dominates.
+//@ spec mType(a acl, p string, h string, rt kmsg.ACLResourceType, op kmsg.ACLOperation) bool =
+//@      a.resourceType == rt && mPrin(a, p) && mHost(a, h) && mOp(a, op)
+//@ spec dominates(d acl, x acl) bool =
+//@      (d.pattern == kmsg.ACLResourcePatternTypeLiteral && d.resourceName == "*")
+//@      || (d.pattern == kmsg.ACLResourcePatternTypeLiteral && x.pattern == kmsg.ACLResourcePatternTypeLiteral && d.resourceName == x.resourceName)
+//@      || (d.pattern == kmsg.ACLResourcePatternTypePrefixed && d.resourceName != "" && hasprefix(x.resourceName, d.resourceName)
+//@          && !(x.pattern == kmsg.ACLResourcePatternTypeLiteral && x.resourceName == "*"))
+
+//@ spec dominated(acls []acl, x acl, p string, h string, rt kmsg.ACLResourceType, op kmsg.ACLOperation) bool =
+//@      exists k in 0..len(acls) :: mType(acls[k], p, h, rt, op) && acls[k].permission == kmsg.ACLPermissionTypeDeny && dominates(acls[k], x)
+
+//@ func (a *clusterACLs) denyDominates(allow *acl, principal string, host string, resourceType kmsg.ACLResourceType, op kmsg.ACLOperation) (r bool)
+//@   prop C34
+//@   nopanic
+//@   pure
+//@   requires forall j in 0..len(a.acls) :: a.acls[j].pattern == kmsg.ACLResourcePatternTypeLiteral || a.acls[j].pattern == kmsg.ACLResourcePatternTypePrefixed
+//@   loop 0 invariant forall k in 0..rangeindex+1 :: !(mType(a.acls[k], principal, host, resourceType, op) && a.acls[k].permission == kmsg.ACLPermissionTypeDeny && dominates(a.acls[k], *allow))
+//@   ensures r <==> dominated(a.acls, *allow, principal, host, resourceType, op)
+
+//@ func (a *clusterACLs) anyAllowed(principal string, host string, resourceType kmsg.ACLResourceType, op kmsg.ACLOperation) (r bool)
+//@   prop C34
+//@   nopanic
+//@   pure
+//@   requires forall j in 0..len(a.acls) :: a.acls[j].permission == kmsg.ACLPermissionTypeAllow || a.acls[j].permission == kmsg.ACLPermissionTypeDeny
+//@   requires forall j in 0..len(a.acls) :: a.acls[j].pattern == kmsg.ACLResourcePatternTypeLiteral || a.acls[j].pattern == kmsg.ACLResourcePatternTypePrefixed
+//@   loop 0 invariant forall j in 0..rangeindex+1 :: !(mType(a.acls[j], principal, host, resourceType, op) && a.acls[j].permission == kmsg.ACLPermissionTypeAllow
+//@              && !dominated(a.acls, a.acls[j], principal, host, resourceType, op))
+//@   ensures [deny-dominance] r <==> exists j in 0..len(a.acls) :: (mType(a.acls[j], principal, host, resourceType, op) && a.acls[j].permission == kmsg.ACLPermissionTypeAllow
+//@              && forall k in 0..len(a.acls) :: !(mType(a.acls[k], principal, host, resourceType, op) && a.acls[k].permission == kmsg.ACLPermissionTypeDeny && dominates(a.acls[k], a.acls[j])))
+//@   ensures [sound-when-no-deny] (forall k in 0..len(a.acls) :: a.acls[k].permission == kmsg.ACLPermissionTypeAllow) ==>
+//@              (r <==> exists j in 0..len(a.acls) :: mType(a.acls[j], principal, host, resourceType, op))
+
+//@ func (c *Cluster) isSuperuser(user string) (r bool)
+//@   prop C34
+//@   nopanic
+//@   pure
+//@   ensures r <==> (c.cfg.superusers != nil && in(c.cfg.superusers, user))
+
+//@ func principal(user string) (r string)
+//@   prop C34
+//@   trusted pure string construction ("User:" + user); only its purity is used
+//@   pure
+
+//@ func (creq *clientReq) clientHost() (h string)
+//@   prop C34
+//@   trusted reads the connection's remote address through net interfaces; only its purity is used
+//@   pure
+
+// Superusers and clusters with ACLs disabled are always allowed.
+//@ func (c *Cluster) allowedACL(creq *clientReq, resource string, resourceType kmsg.ACLResourceType, op kmsg.ACLOperation) (r bool)
+//@   prop C34
+//@   nopanic
+//@   requires forall j in 0..len(c.acls.acls) :: c.acls.acls[j].permission == kmsg.ACLPermissionTypeAllow || c.acls.acls[j].permission == kmsg.ACLPermissionTypeDeny
+//@   pure
+//@   ensures !c.cfg.enableACLs ==> r
+//@   ensures (c.cfg.superusers != nil && in(c.cfg.superusers, creq.cc.user)) ==> r
+//@   ensures (c.cfg.enableACLs && len(c.acls.acls) == 0 && !(c.cfg.superusers != nil && in(c.cfg.superusers, creq.cc.user))) ==> !r
+
+//@ func (c *Cluster) anyAllowedACL(creq *clientReq, resourceType kmsg.ACLResourceType, op kmsg.ACLOperation) (r bool)
+//@   prop C34
+//@   nopanic
+//@   requires forall j in 0..len(c.acls.acls) :: c.acls.acls[j].permission == kmsg.ACLPermissionTypeAllow || c.acls.acls[j].permission == kmsg.ACLPermissionTypeDeny
+//@   requires forall j in 0..len(c.acls.acls) :: c.acls.acls[j].pattern == kmsg.ACLResourcePatternTypeLiteral || c.acls.acls[j].pattern == kmsg.ACLResourcePatternTypePrefixed
+//@   pure
+//@   ensures !c.cfg.enableACLs ==> r
+//@   ensures (c.cfg.superusers != nil && in(c.cfg.superusers, creq.cc.user)) ==> r
